@@ -22,7 +22,8 @@ RULE = ('exhaustive at the tier bound: every span of length 0..N (quick N=6 on V
 TRUSTED = ['label encoding harness/locate_common.py (Python equality of labels = structural equality of the canonical code)',
            'pandas get_loc / __contains__ answers are recorded per case and handed to the model as its oracle table; for period_range and '
            'fixed-frequency date_range spans they are ALSO compared, label by label, with the executable index model LocateIndex.reg_get_loc / '
-           'reg_contains for which locate_spec is proved (so for these spans pandas is modelled, not assumed)']
+           'reg_contains, and for every other duplicate-free pandas index with LocateIndex.plain_get_loc / plain_contains; locate_spec is proved for '
+           'both models (so pandas is modelled and compared, not assumed; text labels on Period / Datetime indexes - partial-string lookups - stay recorded oracles)']
 ASSUMPTIONS = ['operand values already have the dtype of the series (the model moves data, it does not cast)',
                'pandas Index.get_loc on a duplicate-free index meets locate_spec (checked on every recorded answer)',
                'a label None cannot be used as a slice bound (Python reads it as an open end)']
